@@ -6,6 +6,7 @@ import (
 	"fmt"
 	"go/constant"
 	"go/token"
+	"go/types"
 	"strings"
 
 	"golang.org/x/tools/go/ssa"
@@ -375,4 +376,39 @@ func checkOtelContext(c *Ctx, p *Prog, f *ssa.Function, sp otelSpec, rule string
 		}
 	}
 	_ = token.NoPos
+}
+
+// checkContextKeys (C08.R2): values the bus or its bundled observer put on the context that
+// handlers receive must live under keys of a package-private type. A key of a built-in
+// type (a string, an int) collides with — and shadows — a value the application stored
+// on the publish context under the same key, so handlers would no longer see "the publish
+// context's values".
+func checkContextKeys(c *Ctx, p *Prog, pkgs []string, rule string) int {
+	n := 0
+	for _, pkg := range pkgs {
+		for _, f := range p.FuncsIn(pkg) {
+			for _, b := range f.Blocks {
+				for _, in := range b.Instrs {
+					call, ok := in.(*ssa.Call)
+					if !ok || calleeName(call.Common()) != "context.WithValue" || len(call.Common().Args) != 3 {
+						continue
+					}
+					n++
+					key := stripConv(call.Common().Args[1])
+					t := key.Type()
+					private := false
+					if nt, ok := t.(*types.Named); ok && nt.Obj().Pkg() != nil && p.Mods[nt.Obj().Pkg().Path()] && !nt.Obj().Exported() {
+						private = true
+					}
+					if pt, ok := t.Underlying().(*types.Pointer); ok && !private {
+						if nt, ok := pt.Elem().(*types.Named); ok && nt.Obj().Pkg() != nil && p.Mods[nt.Obj().Pkg().Path()] && !nt.Obj().Exported() {
+							private = true
+						}
+					}
+					c.Check(private, rule, fmt.Sprintf("%s/context-key#%d/package-private-type", FuncDisplay(f), n), p.Pos(in.Pos()), "context key of an unexported type of this module ("+types.TypeString(t, nil)+")", "a value is stored on the handlers' context under a key of type "+types.TypeString(t, nil)+", which is not an unexported type of this module: it shadows any value the application stored on the publish context under an equal key")
+				}
+			}
+		}
+	}
+	return n
 }
